@@ -34,9 +34,36 @@ def _fn(cls: ast.ClassDef, name: str) -> ast.FunctionDef:
     raise TranslatorError(f"{cls.name}.{name} not found")
 
 
+_CONSTS: dict[str, int] = {}      # module-level NAME = <int> of tree.py / token.py (never reassigned), by name
+
+
+def _module_constants(*mods: ast.Module) -> dict[str, int]:
+    """named integer constants: top-level `NAME = <int expr>` / `NAME: int = <int expr>` assigned exactly once"""
+    seen: dict[str, list] = {}
+    for mod in mods:
+        for n in mod.body:
+            if isinstance(n, ast.Assign) and len(n.targets) == 1 and isinstance(n.targets[0], ast.Name):
+                seen.setdefault(n.targets[0].id, []).append(n.value)
+            elif isinstance(n, ast.AnnAssign) and isinstance(n.target, ast.Name) and n.value is not None:
+                seen.setdefault(n.target.id, []).append(n.value)
+    out: dict[str, int] = {}
+    for _ in range(3):      # constants defined through earlier constants
+        for name, vals in seen.items():
+            if len(vals) == 1 and name not in out:
+                try:
+                    _CONSTS.clear()
+                    _CONSTS.update(out)
+                    out[name] = _int(vals[0], name)
+                except TranslatorError:
+                    pass
+    return out
+
+
 def _int(node, what: str) -> int:
     if isinstance(node, ast.Constant) and isinstance(node.value, int) and not isinstance(node.value, bool):
         return node.value
+    if isinstance(node, ast.Name) and node.id in _CONSTS:
+        return _CONSTS[node.id]
     if isinstance(node, ast.BinOp) and isinstance(node.op, (ast.Add, ast.Mult)):      # 32 + 32, 2 * 32
         a, b = _int(node.left, what), _int(node.right, what)
         return a + b if isinstance(node.op, ast.Add) else a * b
@@ -64,6 +91,9 @@ def _default(fn: ast.FunctionDef, arg: str) -> int:
 def extract() -> dict:
     tree_mod = ast.parse((REPO / TREE).read_text())
     token_mod = ast.parse((REPO / TOKEN).read_text())
+    consts = _module_constants(token_mod, tree_mod)
+    _CONSTS.clear()
+    _CONSTS.update(consts)
     tt = _cls(tree_mod, "TokenTree")
     out = {}
     # unchained_max_size
@@ -100,15 +130,24 @@ def extract() -> dict:
     tk = _cls(token_mod, "Token")
     fmts = [n for n in ast.walk(_fn(tk, "unserialize")) if isinstance(n, ast.Call)
             and isinstance(n.func, ast.Attribute) and n.func.attr == "unpack_from"]
-    if len(fmts) != 1 or not fmts[0].args or not isinstance(fmts[0].args[0], ast.JoinedStr):
+    if len(fmts) != 1 or not fmts[0].args:
         raise TranslatorError("Token.unserialize: expected one struct.unpack_from(f\"...\", data, offset=offset)")
     js = fmts[0].args[0]
+    if isinstance(js, ast.Name):       # the format held in a local that is assigned once
+        local = [s.value for s in ast.walk(_fn(tk, "unserialize")) if isinstance(s, ast.Assign) and len(s.targets) == 1
+                 and isinstance(s.targets[0], ast.Name) and s.targets[0].id == js.id]
+        js = local[0] if len(local) == 1 else js
+    if not isinstance(js, ast.JoinedStr):
+        raise TranslatorError("Token.unserialize: expected one struct.unpack_from(f\"...\", data, offset=offset)")
     parts = []
     for v in js.values:
         if isinstance(v, ast.Constant):
             parts.append(v.value)
         elif isinstance(v, ast.FormattedValue) and isinstance(v.value, ast.Name) and v.value.id == "sig_len":
             parts.append("{sig_len}")
+        elif isinstance(v, ast.FormattedValue) and v.format_spec is None and v.conversion == -1 \
+                and isinstance(v.value, (ast.Name, ast.BinOp, ast.Constant)):
+            parts.append(str(_int(v.value, "struct format")))
         else:
             raise TranslatorError("Token.unserialize: unexpected piece in the struct format")
     fmt = "".join(parts)
@@ -250,6 +289,8 @@ class _Tree:
         if isinstance(s, ast.Expr) and isinstance(s.value, ast.Call):
             if t.startswith("self._logger."):
                 return
+            if self.mode == "loop" and t in ("path.append(current)", "path.extend([current])"):
+                return
             if t == f"self._append_chain_reaction_token({tok})":
                 st["chained"] = True
                 return
@@ -260,6 +301,9 @@ class _Tree:
         if isinstance(s, (ast.Assign, ast.AnnAssign, ast.AugAssign)):
             tgt = s.targets[0] if isinstance(s, ast.Assign) else s.target
             val = self.norm(s.value) if s.value is not None else ""
+            if isinstance(tgt, ast.Name) and isinstance(s.value, ast.Constant) and \
+                    tgt.id not in ("current", "steps", "path", self.tok):
+                return      # a local given a literal value: no test and no action of the translated language
             if isinstance(tgt, ast.Name):
                 if self.mode == "loop" and tgt.id == "current":
                     if val != "self.elements[current.previous_token_hash]":
@@ -303,7 +347,7 @@ class _Tree:
             if v == self.tok and st.get("chained"):
                 return "chain"
         elif self.mode == "loop":
-            if v in ("False", "[]"):
+            if v in ("False", "[]", "None"):
                 return "fail"
         elif self.mode == "receive":
             if v == "True" and st.get("set"):
@@ -351,6 +395,22 @@ def trees() -> dict:
             if re.fullmatch(rf"(bool\({call}\)|len\({call}\)>0|{call}!=\[\])", txt):
                 out["verifyLoopTree"] = None
                 continue
+        if not loops:      # the walk extracted into a private helper that is called once with (token, maxdepth)
+            calls = [c for c in ast.walk(fn) if isinstance(c, ast.Call) and isinstance(c.func, ast.Attribute)
+                     and isinstance(c.func.value, ast.Name) and c.func.value.id == "self"
+                     and c.func.attr.startswith("_")]
+            helper = None
+            if len(calls) == 1:
+                c = calls[0]
+                args = [getattr(a, "id", None) for a in c.args] + \
+                       [getattr(k.value, "id", None) for k in c.keywords if k.arg in ("token", "maxdepth")]
+                cand = [m for m in tt.body if isinstance(m, ast.FunctionDef) and m.name == c.func.attr]
+                if args == ["token", "maxdepth"] and len(cand) == 1 and \
+                        [a.arg for a in cand[0].args.args] == ["self", "token", "maxdepth"]:
+                    helper = cand[0]
+            if helper is not None:
+                fn = helper
+                loops = [s for s in fn.body if isinstance(s, ast.While)]
         if len(loops) != 1:
             raise TranslatorError(f"{name}: expected exactly one while loop")
         lt = _Tree(fn, "current", "loop")
